@@ -18,7 +18,7 @@ fn tweak(cfg: &mut GenCfg, src: &mut Src) {
 
 /// literal runs, counted loops, brackets: the shapes the optimizer passes pattern-match on
 fn gen_opt_shape(src: &mut Src, cfg: &GenCfg, depth: u32) -> Node {
-    match src.weighted(&[4, 3, 3, 2, 2, 2, 2, 1, 1]) {
+    match src.weighted(&[4, 3, 3, 2, 2, 2, 2, 2, 1]) {
         0 => {
             // literal run, possibly long (crosses the 16-byte chunk limit)
             let n = *src.pick(&[1u32, 2, 3, 5, 8, 15, 16, 17, 20, 33]);
@@ -89,7 +89,13 @@ fn gen(src: &mut Src, _tier: Tier) -> Case {
     if !alpha.contains(&foreign) && alpha.len() < 4 {
         alpha.push(foreign);
     }
-    Case { pat, flags: fl.text(), hay: String::new(), hay16: vec![], start: 0, x: json!({ "alpha": alpha }) }
+    let nh = src.range(2, 5);
+    let hays: Vec<String> = (0..nh).map(|_| witness_hay(src, &node, fl, &cfg.alpha, 2)).collect();
+    Case { pat, flags: fl.text(), hay: String::new(), hay16: vec![], start: 0, x: json!({ "alpha": alpha, "hays": hays }) }
+}
+
+pub fn x_hays(case: &Case) -> Vec<String> {
+    case.x.get("hays").and_then(|a| a.as_array()).map(|a| a.iter().filter_map(|v| v.as_str().map(|s| s.to_string())).collect()).unwrap_or_default()
 }
 
 pub fn x_alpha(case: &Case) -> Vec<u32> {
@@ -112,7 +118,9 @@ pub fn check_l(case: &Case, l: &mut Local, len: usize) -> Verdict {
     let mut any = false;
     let mut evals = 0u64;
     let mut cut = 0u64;
-    for h in all_strings(&alpha, len) {
+    let mut hs = x_hays(case);
+    hs.extend(all_strings(&alpha, len));
+    for h in hs {
         for s in starts_of(&h) {
             let lim = match_limit(&h, s) + 4;
             for eng in [Engine::Bt, Engine::Pike] {
@@ -172,10 +180,10 @@ pub fn variants() -> Vec<&'static Variant> {
 
 pub fn run(ctx: &Ctx) -> i32 {
     match ctx.tier {
-        Tier::Quick => ctx.run_variant(&V, ctx.scale(3_000, 0)),
+        Tier::Quick => ctx.run_variant(&V, ctx.scale(24_000, 0)),
         Tier::Thorough => {
-            ctx.run_variant(&V, ctx.scale(0, 40_000));
-            ctx.run_variant(&VT, ctx.scale(0, 8_000));
+            ctx.run_variant(&V, ctx.scale(0, 300_000));
+            ctx.run_variant(&VT, ctx.scale(0, 40_000));
         }
     }
     {
@@ -184,7 +192,7 @@ pub fn run(ctx: &Ctx) -> i32 {
     }
     ctx.finish(
         "translation_validation",
-        "generated programs biased to what the passes rewrite (literal runs up to 33 chars, counted loops 0..6 on unrollable and non-unrollable bodies, single-char loops over every 1-char node kind, empty/always-failing brackets, lookbehind) ; each program is compiled with and without the optimizer and the two are compared on EVERY haystack of length <= L (4 quick, 4 and 5 thorough) over the program's relevant alphabet (<= 4 symbols) from every start offset (backtracker all starts, PikeVM start 0). Non-trivial = the optimizer changed the program (Debug dumps differ) and some haystack matched.",
+        "generated programs biased to what the passes rewrite (literal runs up to 33 chars, counted loops 0..6 on unrollable and non-unrollable bodies, single-char loops over every 1-char node kind, empty/always-failing brackets, lookbehind) ; each program is compiled with and without the optimizer and the two are compared on EVERY haystack of length <= L (4 quick, 4 and 5 thorough) over the program's relevant alphabet (<= 4 symbols) from every start offset (backtracker all starts, PikeVM start 0), plus 2-5 witness haystacks sampled from the program's own language (so that literals longer than L, counted loops and lookbehind contexts are reached). Non-trivial = the optimizer changed the program (Debug dumps differ) and some haystack matched.",
         &["bounded equivalence only: haystacks longer than L or over other characters are not examined", "fuel hook cuts runaway searches (counted)"],
     )
 }
